@@ -25,7 +25,7 @@ var chainMode bool
 func genT(rt *rapid.T, depth int) T {
 	if chainMode && depth > 0 {
 		// one nested field per level keeps deep types small
-		k := rapid.SampledFrom([]string{"ptr", "ptr", "struct", "ptrs", "structs"}).Draw(rt, "chainkind")
+		k := rapid.SampledFrom([]string{"ptr", "ptr", "struct", "ptrs", "structs", "iface", "pptr"}).Draw(rt, "chainkind")
 		name := rapid.SampledFrom(fieldNames).Draw(rt, "chainname")
 		other := "Key"
 		if name == "Key" {
@@ -39,12 +39,12 @@ func genT(rt *rapid.T, depth int) T {
 	for _, name := range names {
 		kinds := []string{"string", "string", "int", "bool", "pstring", "strs", "strs", "ints"}
 		if depth > 0 {
-			kinds = append(kinds, "ptr", "ptr", "ptr", "struct", "ptrs", "ptrs", "structs")
+			kinds = append(kinds, "ptr", "ptr", "ptr", "struct", "ptrs", "ptrs", "structs", "iface", "iface", "ifacev", "ifaces", "pptr")
 		}
 		k := rapid.SampledFrom(kinds).Draw(rt, "kind")
 		ft := T{Kind: k}
 		switch k {
-		case "ptr", "struct", "ptrs", "structs":
+		case "ptr", "struct", "ptrs", "structs", "iface", "ifacev", "ifaces", "pptr":
 			ft.Fields = genT(rt, depth-1).Fields
 		}
 		t.Fields = append(t.Fields, F{Name: name, T: ft})
@@ -73,7 +73,7 @@ func genV(rt *rapid.T, t T) V {
 		return V{S: rapid.SampledFrom(strs).Draw(rt, "s")}
 	case "struct":
 		return V{Fields: fields()}
-	case "ptr":
+	case "ptr", "iface", "ifacev", "pptr":
 		if rapid.IntRange(0, 3).Draw(rt, "nilptr") == 0 {
 			return V{Nil: true}
 		}
@@ -94,7 +94,7 @@ func genV(rt *rapid.T, t T) V {
 			v.Items = append(v.Items, V{S: rapid.SampledFrom(strs).Draw(rt, "s")})
 		case "ints":
 			v.Items = append(v.Items, V{I: int64(rapid.IntRange(0, 3).Draw(rt, "i"))})
-		case "ptrs":
+		case "ptrs", "ifaces":
 			if rapid.IntRange(0, 4).Draw(rt, "nilelem") == 0 {
 				v.Items = append(v.Items, V{Nil: true})
 			} else {
